@@ -21,7 +21,12 @@ impl EqCfg {
     }
     pub fn builder(&self) -> MyersBuilder {
         let mut b = MyersBuilder::new();
-        for (c, e) in &self.ambig {
+        for (i, (c, e)) in self.ambig.iter().enumerate() {
+            if i % 2 == 1 {
+                // configure the symbol twice: the second call replaces the first (the equivalents are stored per symbol)
+                let other: Vec<u8> = e.iter().map(|x| x.wrapping_add(1)).collect();
+                b.ambig(*c, other.iter());
+            }
             b.ambig(*c, e.iter());
         }
         for &w in &self.wild {
@@ -107,8 +112,20 @@ pub fn gen_pattern_text(rng: &mut Rng, alpha: &[u8], m: usize, maxn: usize) -> (
 
 macro_rules! check_myers {
     ($ctx:expr, $name:expr, $obj:expr, $texts:expr, $p:expr, $cfg:expr, $dt:ty, $kmax:expr) => {{
-        let my = $obj;
+        // construction is part of the monitored behaviour: a panic in a constructor / builder is a violation, not a harness error
+        let built = guard(|| $obj);
+        $ctx.eval(1);
+        if let Err(e) = &built {
+            $ctx.violation(
+                &format!("{}:construction-panic:{}", $name, panic_site(e)),
+                Obj::new().s("impl", $name).b("pattern", $p).d("equality", $cfg).s("what", e).done(),
+            );
+        }
         for (ti, (t, k)) in $texts.iter().enumerate() {
+            let my = match &built {
+                Ok(m) => m,
+                Err(_) => break,
+            };
             let d = model::sellers($p, t, &|a, b| (!$cfg.eq(a, b)) as usize);
             let k = (*k).min($kmax);
             let exp = expected_hits(&d, k);
